@@ -14,7 +14,7 @@ CORR_BITS = (0, 1)          # model/implementation disagree; an oracle value vio
 
 def sizes(tier):
     if tier == "quick":
-        return dict(replay=260, stub=220, alm=100, almh=140, fuzzy=120, sop=300, max_n=7, max_len=8, max_calls=4)
+        return dict(replay=260, stub=220, alm=100, almh=140, fuzzy=120, sop=220, max_n=7, max_len=8, max_calls=4)
     return dict(replay=3000, stub=2500, alm=1500, almh=2000, fuzzy=1500, sop=6000, max_n=10, max_len=10, max_calls=6)
 
 
@@ -97,7 +97,9 @@ def fill_coverage(run, tier):
         "chosen by the seed); plus random wordlists with arbitrary "
         "cognate-set structure for Alignments.align; (C11 only) a direct stream on the score functions: random gappy "
         "matrices and column pairs, integer scores, gap weights from {0, 1/8, 1/4, 1/2, 3/4, 1, 3/2}, comparing "
-        "calign/talign.score_profile and Multiple.sum_of_pairs with the documented column score within 2^-30; and wordlists with two or three differently partitioning cognate-id "
+        "calign/talign.score_profile and Multiple.sum_of_pairs with the documented column score within 2^-30, and inside "
+        "the histories every end-of-pass call with a recorded scoring dictionary (<= 200 entries) is decided with the "
+        "documented score as well (model value = measured value, model score after >= before); and wordlists with two or three differently partitioning cognate-id "
         "columns (optionally carrying an alignment column with stale gaps) under histories of add_alignments(ref, override) "
         "/ align(ref) calls over all refs in any order, checked after every call for the ref of that call.  Compared after EVERY call.  Non-trivial (C04) = at least two "
         "unique class strings and a gap in the final alignment; (C11) = at least one end-of-pass refinement call whose "
